@@ -416,7 +416,7 @@ impl Table {
             indexmap::map::Entry::Occupied(mut entry) => {
                 entry.key_mut().fmt();
                 let old = std::mem::replace(entry.get_mut(), item);
-                Some(old)
+                Some(old).filter(|old| !old.is_none())
             }
             indexmap::map::Entry::Vacant(entry) => {
                 entry.insert(item);
@@ -432,7 +432,7 @@ impl Table {
             indexmap::map::Entry::Occupied(mut entry) => {
                 *entry.key_mut() = key.clone();
                 let old = std::mem::replace(entry.get_mut(), item);
-                Some(old)
+                Some(old).filter(|old| !old.is_none())
             }
             indexmap::map::Entry::Vacant(entry) => {
                 entry.insert(item);
@@ -443,12 +443,16 @@ impl Table {
 
     /// Removes an item given the key.
     pub fn remove(&mut self, key: &str) -> Option<Item> {
-        self.items.shift_remove(key)
+        self.items
+            .shift_remove(key)
+            .filter(|value| !value.is_none())
     }
 
     /// Removes a key from the map, returning the stored key and value if the key was previously in the map.
     pub fn remove_entry(&mut self, key: &str) -> Option<(Key, Item)> {
-        self.items.shift_remove_entry(key)
+        self.items
+            .shift_remove_entry(key)
+            .filter(|(_, value)| !value.is_none())
     }
 
     /// Retains only the elements specified by the `keep` predicate.
